@@ -262,6 +262,8 @@ def main():
     for name in conf.path_configs.keys():
         pc = loaded.get(name) or get_path_config(name)
         pr = resolver_dump(pc.name)
+        pr["id"] = name          # identified by the CONFIGURED name; pc.name is checked against it (path_config_names)
+        out.setdefault("path_config_names", []).append([name, pc.name])
         out["path_resolvers"].append(pr)
         mapping = []
         for k, v in pc.path_mapping.items():
@@ -271,7 +273,7 @@ def main():
         if pc.sidkeys_to_extrakeys or pc.extrakeys_to_sidkeys:
             raise OutOfSubset("extra keys")
         out["conf"]["paths"].append({
-            "name": pc.name,
+            "name": name,
             "templates": [[l["label"], l["tokens"]] for l in pr["labels"]],
             "mapping": mapping,
             "defaults": pairs(pc.path_defaults),
